@@ -225,6 +225,8 @@ def eval_tree_lookup(P, method):
         M = build(P, 'Tree', sc)
         n = M.n
         targets = [('present', j) for j in range(n)] + [('absent', g) for g in range(n + 1)]
+        if method == 'rem':
+            targets = [t for t in targets if t[0] == 'absent']        # (the removal of a stored key is the shape analysis' business)
         for kind, j in targets:
             TOK = 555000 + j
             where = j if kind == 'present' else j - 0.5        # position of the sought key in the in-order sequence
@@ -245,6 +247,8 @@ def eval_tree_lookup(P, method):
                     return r if nm == 'cmp' else int(r == 0)
                 if nm == 'len' and it.ev(e[2][0]) == SELF:
                     return M.n
+                if method == 'rem' and nm in ('destruct', 'free'):
+                    raise Mismatch('%s is called although the key is not stored' % nm)
                 raise cint.NoEval('call %s' % nm)
             it = cint.CInt(P, fn, atoms=M.atoms, call=call, recurse=True, mem=M.mem, max_steps=3000, strict=True)
             try:
@@ -258,7 +262,7 @@ def eval_tree_lookup(P, method):
             if kind == 'present':
                 want = ('ret', 1) if method == 'mem' else ('ret', M.vals[j])
             else:
-                want = ('ret', 0) if method == 'mem' else ('term', ('throw', 'KeyError'))
+                want = ('ret', 0) if method == 'mem' else ('term', ('throw', 'KeyError'))          # get and rem raise
             if (r[0], r[1]) != want:
                 got = ('returns %s' % (('the value of entry %d' % (M.vals.index(r[1]) + 1)) if r[1] in M.vals else r[1],)) if r[0] == 'ret' else \
                     ('raises %s' % r[1][1] if r[0] == 'term' and isinstance(r[1], tuple) else ('does not end' if r[0] == 'stuck' else str(r[1])))
